@@ -39,7 +39,8 @@ class Protocol(Component):
 
     @handler(channel='node_result', priority=100)
     def result_handler(self, event, *args, **kwargs):
-        if event.name.endswith('_success'):
+        # answer when the remote event is finished: <name>_success, or <name>_complete of an event that failed
+        if event.name.endswith('_success') or (event.name.endswith('_complete') and args[0].value.errors):
             source_event = args[0]
 
             if getattr(args[0], 'node_call_id', False) is not False:
@@ -100,6 +101,8 @@ class Protocol(Component):
         else:
             event.success = True  # fire %s_success event
             event.success_channels = ('node_result',)
+            event.complete = True  # fire %s_complete event: the only notification of an event that failed
+            event.complete_channels = ('node_result',)
             event.node_call_id = id
             event.node_sock = self.__sock
 
@@ -118,6 +121,7 @@ class Protocol(Component):
 
             # save result
             ev.value.setValue(value)
+            ev.value.errors = bool(error)
             ev.errors = error
             ev.remote_finish = True
 
